@@ -159,8 +159,17 @@ def c01_transparency(tier="quick", seed=0):
     ex = S.fn("microjs.vm", "VM._execute")
     import ast
     conv = sorted({nm for hh in ast.walk(ex) if isinstance(hh, ast.ExceptHandler) for nm in S.handler_type_names(hh)})
-    ok = all(nm in ("JSTypeError", "JSReferenceError", "JSRangeError", "JSSyntaxError", "NativeUnwind") for nm in conv)
-    out.append(ob("C01.transparency.execute-converts-only-script-errors", ok, "K3", f"VM._execute converts {conv} into script exceptions"))
+    ok = all(nm in ("JSTypeError", "JSReferenceError", "JSRangeError", "JSSyntaxError", "NativeUnwind", "JSError", "TimeLimitError", "MemoryLimitError") for nm in conv)
+    # the generic JSError conversion (uncaught throws of nested code) comes only after a handler that re-raises the limit errors
+    for tr in [n for n in ast.walk(ex) if isinstance(n, ast.Try)]:
+        shield = False
+        for hh in tr.handlers:
+            nms = S.handler_type_names(hh)
+            if "TimeLimitError" in nms and "MemoryLimitError" in nms and S.always_reraises(hh):
+                shield = True
+            if "JSError" in nms and not shield:
+                ok = False
+    out.append(ob("C01.transparency.execute-converts-only-script-errors", ok, "K3", f"VM._execute converts {conv} into script exceptions; limit errors are re-raised before the generic conversion"))
     return out
 
 
@@ -191,6 +200,41 @@ def c01_one_deadline(tier="quick", seed=0):
     except KeyError:
         ok = False
     out.append(ob("C01.one-deadline.nested-copies-start", ok, "K3", "Context._nested_vm copies start_time and time_limit of the running evaluation"))
+    # every nested start polls the deadline itself (work made of many short nested runs never reaches the per-VM interval)
+    try:
+        nv2 = _S_.unparse(S.fn("microjs.context", "Context._nested_vm"))
+        ok_poll = "raise TimeLimitError('Execution timeout')" in nv2 and "time.monotonic() - vm.start_time > vm.time_limit" in nv2
+    except KeyError:
+        ok_poll = False
+    out.append(ob("C01.one-deadline.nested-start-polls", ok_poll, "K3", "Context._nested_vm compares the clock with the inherited deadline before any nested code runs",
+                  witness="function f(d){ if(d==0) return 0; for(var i=0;i<10;i++) eval('f('+(d-1)+')'); return 0 } f(9)"))
+    # a match runs against the deadline of the evaluation that starts it: every use of a RegExp object in the string and
+    # regexp methods first installs the current VM's deadline check on it
+    vmt = S.module("microjs.vm")
+    unarmed, sites = [], 0
+    for f in ast.walk(vmt):
+        if isinstance(f, ast.FunctionDef) and f.name in ("_make_string_method", "_make_regexp_method"):
+            for n in ast.walk(f):
+                if isinstance(n, ast.If) and isinstance(n.test, ast.Call) and ast.unparse(n.test.func) == "isinstance" and len(n.test.args) == 2 \
+                        and ast.unparse(n.test.args[1]) == "JSRegExp" and isinstance(n.test.args[0], ast.Name):
+                    sites += 1
+                    first = ast.unparse(n.body[0]) if n.body else ""
+                    if first != f"self._arm_regex({n.test.args[0].id})":
+                        unarmed.append(f"{f.name}:{n.lineno}")
+            if f.name == "_make_regexp_method":
+                for g in ast.walk(f):
+                    if isinstance(g, ast.FunctionDef) and g is not f and any(isinstance(c, ast.Call) and isinstance(c.func, ast.Attribute) and c.func.attr in ("test", "exec") for c in ast.walk(g)):
+                        sites += 1
+                        if "self._arm_regex(" not in ast.unparse(g):
+                            unarmed.append(f"{f.name}.{g.name}")
+    try:
+        arm = _S_.unparse(S.fn("microjs.vm", "VM._arm_regex"))
+        ok_arm = "time.monotonic() - self.start_time > self.time_limit" in arm and "_poll_callback" in arm
+    except KeyError:
+        ok_arm = False
+    out.append(ob("C01.one-deadline.regex-armed-at-use", ok_arm and sites >= 6 and not unarmed, "K3",
+                  f"{sites} uses of a RegExp object in the string/regexp methods, not preceded by _arm_regex: {unarmed}; _arm_regex installs the running VM's deadline: {ok_arm}",
+                  witness="eval 1: var re = /(x+)+y/; (wait past the limit) eval 2: re.test('xxxxxxxxxxxx') is stopped at once"))
     run = S.fn("microjs.vm", "VM.run")
     rs = _S_.unparse(run)
     ok2 = "if self.start_time is None:" in rs and rs.count("self.start_time = time.monotonic()") == 1
@@ -323,6 +367,27 @@ REGEX = {
 }
 
 
+# work made of very many SHORT runs of script code, each started by a built-in (a fresh nested VM for eval / Function /
+# accessors read by Object.*, a nested run loop for callbacks and conversions): no single run reaches the per-VM polling
+# interval, so the deadline must also be polled where such a run starts
+FANOUT = {
+    "eval-tree": "function f(d){ if(d==0) return 0; for(var i=0;i<10;i++) eval('f('+(d-1)+')'); return 0 } f(9)",
+    "indirect-eval-tree": "var e = eval; function f(d){ if(d==0) return 0; for(var i=0;i<10;i++) e('f('+(d-1)+')'); return 0 } f(9)",
+    "Function-tree": "function f(d){ if(d==0) return 0; for(var i=0;i<10;i++) new Function('return f('+(d-1)+')')(); return 0 } f(9)",
+    "getter-values-tree": "function mk(d){ var o={}; for(var i=0;i<8;i++){ Object.defineProperty(o,'p'+i,{get:function(){ if(d>0) Object.values(mk(d-1)); return 1 },enumerable:true}) } return o } Object.values(mk(9))",
+    "getter-entries-tree": "function mk(d){ var o={}; for(var i=0;i<8;i++){ Object.defineProperty(o,'p'+i,{get:function(){ if(d>0) Object.entries(mk(d-1)); return 1 },enumerable:true}) } return o } Object.entries(mk(9))",
+    "setter-assign-tree": "function mk(d){ var o={}; for(var i=0;i<8;i++){ Object.defineProperty(o,'p'+i,{set:function(v){ if(d>0) Object.assign(mk(d-1), src) },enumerable:true}) } return o } var src={p0:1,p1:1,p2:1,p3:1,p4:1,p5:1,p6:1,p7:1}; Object.assign(mk(9), src)",
+    "forEach-tree": "function f(d){ if(d==0) return 0; [1,2,3,4,5,6,7,8,9,10].forEach(function(){ f(d-1) }); return 0 } f(9)",
+    "sort-tree": "function f(d){ if(d==0) return 0; [3,1,2,5,4].sort(function(a,b){ f(d-1); return a-b }); return 0 } f(9)",
+    "replace-tree": "function f(d){ if(d==0) return ''; return 'aaaaaaaaaa'.replace(/a/g, function(){ return f(d-1) }) } f(9)",
+    "toString-tree": "function mk(d){ return {toString:function(){ if(d>0){ for(var i=0;i<10;i++) ''+mk(d-1) } return '' }} } ''+mk(9)",
+    "valueOf-tree": "function mk(d){ return {valueOf:function(){ if(d>0){ for(var i=0;i<10;i++) mk(d-1) * 1 } return 0 }} } mk(9) * 1",
+    "getter-tree": "function mk(d){ return {get p(){ if(d>0){ for(var i=0;i<10;i++) mk(d-1).p } return 0 }} } mk(9).p",
+    "call-tree": "function f(d){ if(d==0) return 0; for(var i=0;i<10;i++) f.call(null, d-1); return 0 } f(9)",
+    "json-reviverless-tree": "function f(d){ if(d==0) return 0; for(var i=0;i<10;i++) JSON.parse('[1,2,3]').map(function(){ f(d-1) }); return 0 } f(9)",
+}
+
+
 def _run_case(src, T, mem):
     import time as _t
     from microjs import Context
@@ -380,6 +445,9 @@ def c01_bounded(tier="quick", seed=0):
     for rn, rt in REGEX.items():
         for wn, wrap in (("bare", "{B}"), ("try-catch", "try { {B} } catch(e) { 1 }")):
             cases.append((f"{rn}.{wn}", wrap.replace("{B}", rt)))
+    for fn, ft in FANOUT.items():
+        for wn, wrap in (("bare", "{B}"), ("try-catch", "try { {B} } catch(e) { 1 }")):
+            cases.append((f"fanout-{fn}.{wn}", wrap.replace("{B}", ft)))
     with mp.get_context("fork").Pool(8) as pool:
         res = pool.map(_case_worker, [(src, T, None if i % 2 else 10 ** 7) for i, (_, src) in enumerate(cases)])
     out = []
@@ -439,10 +507,10 @@ def _history_case(args):
     c = Context(time_limit=1.0)
     t1 = None
     try:
-        c.eval("function rx(s) { return " + short.replace("'" + "a" * 10 + "'", "s") + " } rx('" + "a" * 10 + "')")
+        c.eval("function rx(s) { return " + short.replace("'" + "a" * 10 + "'", "s") + " } rx('" + "a" * 10 + "'); var kept = /(a*)*b/, kept2 = new RegExp('(a*)*b')")
         _t.sleep(1.1)
         t1 = _t.time()
-        c.eval("rx('" + "a" * 10 + "')")
+        c.eval("rx('" + "a" * 10 + "'); kept.test('" + "a" * 10 + "'); kept2.exec('" + "a" * 10 + "'); '" + "a" * 10 + "'.match(kept); '" + "a" * 10 + "'.replace(kept2, ''); '" + "a" * 10 + "'.search(kept); '" + "a" * 10 + "'.split(kept2)")
     except TimeLimitError:
         # stopped BEFORE its own deadline: the deadline of the earlier evaluation was applied.  (Stopped after a full
         # second means the machine is overloaded: inconclusive, not a violation.)
